@@ -978,3 +978,203 @@ func runC17Chord(c *Ctx) {
 		c.Errorf("no division by a chord length found in alg_simplify.go, expected >= 1")
 	}
 }
+
+// ---------------------------------------------------------------------------
+// C01.viaoverlay: whatever a set operation returns came out of the overlay
+// ---------------------------------------------------------------------------
+
+func init() {
+	register(&Rule{
+		ID:    "C01.viaoverlay",
+		Props: []string{"C01", "C10"},
+		Doc:   "a set operation's result is noded, merged and in canonical XY form because the overlay produced it: in every exported function of alg_set_op.go that returns (Geometry, error) — Union, Intersection, Difference, SymmetricDifference, UnaryUnion, UnionMany and any later sibling — the geometry of every return is the zero Geometry, the result of another function of that file (an entry point or setOp), or what extractGeometry produced. A return of an operand (or of something computed from an operand by other means: Force2D, a constructor) is a fast path that skips noding — a line string that doubles back over itself, a polygon list that overlaps, comes back as it went in",
+		Floor: 4,
+		Run:   runC01ViaOverlay,
+	})
+}
+
+func runC01ViaOverlay(c *Ctx) {
+	n := 0
+	for _, f := range c.P.Funcs {
+		if pkgOf(f) != "geom" || f.Parent() != nil || f.Blocks == nil || !token.IsExported(f.Name()) || f.Signature.Recv() != nil {
+			continue
+		}
+		if !strings.HasSuffix(c.P.File(f.Pos()), "alg_set_op.go") {
+			continue
+		}
+		res := f.Signature.Results()
+		if res.Len() != 2 || namedName(res.At(0).Type()) != "Geometry" {
+			continue
+		}
+		inFile := func(g *ssa.Function) bool {
+			return g != nil && pkgOf(g) == "geom" && (strings.HasSuffix(c.P.File(rootFunc(g).Pos()), "alg_set_op.go") || FuncName(g) == "geom.(*doublyConnectedEdgeList).extractGeometry")
+		}
+		k := 0
+		for _, b := range f.Blocks {
+			ret, ok := b.Instrs[len(b.Instrs)-1].(*ssa.Return)
+			if !ok || len(ret.Results) != 2 {
+				continue
+			}
+			n++
+			k++
+			bad := ""
+			seen := map[ssa.Value]bool{}
+			var walk func(v ssa.Value, d int)
+			walk = func(v ssa.Value, d int) {
+				if bad != "" || seen[v] || d > 12 {
+					return
+				}
+				seen[v] = true
+				v = resolveCell(v)
+				switch x := v.(type) {
+				case *ssa.Const:
+					return
+				case *ssa.Phi:
+					for _, e := range x.Edges {
+						walk(e, d+1)
+					}
+					return
+				case *ssa.Extract:
+					if call, ok := x.Tuple.(*ssa.Call); ok && x.Index == 0 && inFile(call.Common().StaticCallee()) {
+						return
+					}
+				case *ssa.Call:
+					if inFile(x.Common().StaticCallee()) {
+						return
+					}
+				case *ssa.UnOp:
+					if al, ok := x.X.(*ssa.Alloc); ok && x.Op == token.MUL {
+						// a local Geometry variable: zero unless stored to; every store is walked
+						stored := false
+						for _, r := range *al.Referrers() {
+							if st, ok := r.(*ssa.Store); ok && st.Addr == ssa.Value(al) {
+								stored = true
+								walk(st.Val, d+1)
+							}
+						}
+						if !stored || bad == "" {
+							return
+						}
+					}
+				}
+				if bad == "" {
+					bad = fmt.Sprintf("%T %s", v, v.String())
+				}
+			}
+			walk(ret.Results[0], 0)
+			c.Check(bad == "", ret.Pos(), FuncName(f), fmt.Sprintf("return #%d", k), "the zero Geometry, or the result of the overlay / of a sibling entry point", fmt.Sprintf("this return hands back %s, which did not come out of the overlay: the result is not noded or merged (a self-overlapping line string, overlapping members) and need not be XY or in canonical order", bad))
+		}
+	}
+	if n < 5 {
+		c.Errorf("only %d returns of set operations found, expected >= 5", n)
+	}
+}
+
+// ---------------------------------------------------------------------------
+// C07.ringclose: a TWKB ring is judged closed on all of its dimensions
+// ---------------------------------------------------------------------------
+
+func init() {
+	register(&Rule{
+		ID:    "C07.ringclose",
+		Props: []string{"C07"},
+		Doc:   "TWKB drops a ring's closing point and the parser puts it back unless the stored ring is already closed; 'already closed' is a statement about every ordinate the header announces: in twkbParser.nextPolygon (its literals and helpers split off it) every ==/!= between ordinates (float64 values, or XY/Coordinates values built from them) sits in a loop bounded by the parser's `dimensions` field or by the length of a slice. A comparison on a fixed pair of ordinates (X and Y) calls a Z/M ring closed whose last stored vertex repeats the start's X/Y with another Z or M — the closing point is not restored and the round trip changes the geometry",
+		Floor: 1,
+		Run:   runC07RingClose,
+	})
+}
+
+func runC07RingClose(c *Ctx) {
+	root := c.P.Func("geom.(*twkbParser).nextPolygon")
+	if root == nil {
+		c.Errorf("anchor geom.(*twkbParser).nextPolygon does not resolve")
+		return
+	}
+	n := 0
+	for _, f := range withHelpersAndLiterals(root) {
+		if f.Blocks == nil {
+			continue
+		}
+		isDimField := func(x ssa.Value) bool {
+			if ld, ok := x.(*ssa.UnOp); ok && ld.Op == token.MUL {
+				if fa, ok := ld.X.(*ssa.FieldAddr); ok {
+					return fieldName(fa.X.Type(), fa.Field) == "dimensions"
+				}
+			}
+			return false
+		}
+		dimLoop := func(at *ssa.BasicBlock) bool {
+			for _, h := range f.Blocks {
+				loop := naturalLoop(h)
+				if loop == nil || !loop[at] {
+					continue
+				}
+				iff, ok := h.Instrs[len(h.Instrs)-1].(*ssa.If)
+				if !ok {
+					continue
+				}
+				bound := func(v ssa.Value) bool {
+					return computedFrom(v, func(x ssa.Value) bool {
+						if ld, ok := x.(*ssa.UnOp); ok && ld.Op == token.MUL {
+							if fa, ok := ld.X.(*ssa.FieldAddr); ok {
+								return fieldName(fa.X.Type(), fa.Field) == "dimensions"
+							}
+						}
+						if call, ok := x.(*ssa.Call); ok {
+							if b, ok := call.Call.Value.(*ssa.Builtin); ok && b.Name() == "len" {
+								return true
+							}
+						}
+						// the dimension count handed to a helper: at every call site it is the parser's field
+						if pa, ok := x.(*ssa.Parameter); ok && f != root {
+							idx := -1
+							for k, q := range f.Params {
+								if q == pa {
+									idx = k
+								}
+							}
+							sites := c.P.callSitesOf(f)
+							if idx < 0 || len(sites) == 0 {
+								return false
+							}
+							for _, cs := range sites {
+								args := cs.Common().Args
+								if idx >= len(args) || !computedFrom(args[idx], isDimField) {
+									return false
+								}
+							}
+							return true
+						}
+						return false
+					})
+				}
+				if bo, ok := iff.Cond.(*ssa.BinOp); ok && (bound(bo.X) || bound(bo.Y)) {
+					return true
+				}
+			}
+			return false
+		}
+		eachInstr(f, func(in ssa.Instruction) {
+			bo, ok := in.(*ssa.BinOp)
+			if !ok || (bo.Op != token.EQL && bo.Op != token.NEQ) {
+				return
+			}
+			t := bo.X.Type()
+			isOrd := false
+			if bt, ok := t.Underlying().(*types.Basic); ok && bt.Info()&types.IsFloat != 0 {
+				isOrd = true
+			}
+			if nn := namedName(t); nn == "XY" || nn == "Coordinates" {
+				isOrd = true
+			}
+			if !isOrd {
+				return
+			}
+			n++
+			c.Check(dimLoop(bo.Block()), bo.Pos(), FuncName(f), fmt.Sprintf("%s between ordinates", bo.Op), "inside a loop over all of the parser's dimensions", "ordinates are compared outside any loop over the parser's dimensions, i.e. on a fixed subset of them (X and Y): a Z/M ring whose last stored vertex repeats the start's X/Y with a different Z or M is taken as already closed and its closing point is not restored")
+		})
+	}
+	if n == 0 {
+		c.Triv(token.NoPos, FuncName(root), "summary", "no ordinate comparison in this form: not judged")
+	}
+}
